@@ -84,9 +84,28 @@ def run(tier):
     for f in sorted(glob.glob(os.path.join(vlib.REPO, "src", "*.rs"))) + [os.path.join(vlib.REPO, "build.rs")]:
         src = re.sub(r"//.*", "", open(f).read())
         src = re.sub(r'"(\\.|[^"\\])*"', '""', src)
-        for m in re.finditer(r"\bunsafe\b", src):
+        # the keyword, and any identifier that names an unsafe facility (e.g. a derive called UnsafeFromPrimitive); the lint name
+        # `unsafe_code` inside forbid(...) / deny(...) is the one expected occurrence
+        src = re.sub(r"#!?\[(forbid|deny)\([^\]]*\)\]", "", src)
+        for m in re.finditer(r"[A-Za-z0-9_]*[Uu][Nn][Ss][Aa][Ff][Ee][A-Za-z0-9_]*", src):
             toks += 1
-            where.append(os.path.basename(f))
+            where.append("%s:%s" % (os.path.basename(f), m.group(0)))
+    # ... and in the MACRO-EXPANDED crate (rustc does not apply forbid(unsafe_code) to code expanded from other crates' derives):
+    # nightly `-Zunpretty=expanded`, default features and serialize; built-in derives' `unsafe impl ::core::...` marker impls are not code
+    for feat in ([], ["--features", "serialize"]):
+        px = subprocess.run(["cargo", "+nightly", "rustc", "--offline", "--lib", "--target-dir", os.path.join(vlib.HARNESS, "target-expand")] + feat +
+                            ["--", "-Zunpretty=expanded"], cwd=vlib.REPO, capture_output=True, text=True, env=dict(os.environ, CARGO_NET_OFFLINE="true"))
+        if px.returncode != 0 or len(px.stdout) < 10000:
+            raise vlib.ToolError("macro expansion of the crate failed: %s" % px.stderr[-600:])
+        exp = re.sub(r"//.*", "", px.stdout)
+        exp = re.sub(r'"(\\.|[^"\\])*"', '""', exp)
+        exp = re.sub(r"#!?\[(forbid|deny)\([^\]]*\)\]", "", exp)
+        exp = re.sub(r"unsafe\s+impl(<[^>]*>)?\s+::core::[A-Za-z_:]+\s+for\b", "", exp)
+        # (built-in derives of this toolchain: `unsafe { ::core::intrinsics::unreachable() }` in derived comparisons of fieldless enums)
+        exp = re.sub(r"unsafe\s*\{\s*::core::intrinsics::(unreachable|discriminant_value)\([^)]*\)\s*\}", "", exp)
+        for m in re.finditer(r"\bunsafe\b[^\n]{0,60}", exp):
+            toks += 1
+            where.append("expanded(%s):%s" % (" ".join(feat) or "default", m.group(0).strip()[:50]))
     # the assertions are compiled under BOTH feature sets of the library (std and no_std): an auto trait can differ between them
     ss_ok, ss_err = True, ""
     for extra in ([], ["--no-default-features"]):
